@@ -482,7 +482,9 @@ class DataSet:
             if i < 0 or i >= self._num_points:
                 del mask[i]
 
-        self._mask.update(mask)
+        # Store plain Python types (e.g., NumPy integers and booleans are
+        # accepted but they cannot be serialized as JSON).
+        self._mask.update({int(k): bool(v) for k, v in mask.items()})
 
     def get_mask(self) -> Dict[int, bool]:
         """
